@@ -183,6 +183,127 @@ theorem C04_payload_kinds : ∀ ic ∈ S2T.Gen.Iface.imageClasses, ic.payloadKin
 
 example : (getBytes (consume (mkImage .stream (some [1, 2, 3])) 2)).1 = ⟨[1, 2, 3], 0⟩ := by decide
 
+/-! ## (iii-b) pictures of the legacy PPT / XLS streams (OfficeArt BLIP records) -/
+
+/-- the constants of the modelled pipeline are the ones of the current source (record types, metafile / DIB types,
+secondary-UID instances, file signatures in the order `detect_image_type` tries them) -/
+theorem C04_blip_constants :
+    S2T.Gen.Iface.blipTypes = blipTypes ∧ S2T.Gen.Iface.blipEmf = blipEmf ∧ S2T.Gen.Iface.blipWmf = blipWmf ∧
+    S2T.Gen.Iface.blipDib = blipDib ∧ S2T.Gen.Iface.blipSecondUid = blipSecondUid ∧
+    S2T.Gen.Iface.imageSignatures = imageSignatures := by decide
+
+/-- wrapping a DIB: the BMP file is the DIB behind a 14-byte `BM` header — 14 bytes longer than what was in the record -/
+theorem C04_wrap_dib_length (d b : List Nat) (h : wrapDibAsBmp d = some b) :
+    b.length = d.length + 14 ∧ b.drop 14 = d ∧ b.take 2 = [0x42, 0x4D] := by
+  unfold wrapDibAsBmp at h
+  split at h
+  · cases h
+  · split at h
+    · cases h
+    · simp only at h
+      split at h
+      · cases h
+      · cases h
+        refine ⟨by simp [le32], by simp [le32], by simp [le32]⟩
+
+/-- what a record's stored payload is: the bytes behind the BLIP header, or (DIB records the sniffer does not know)
+their BMP wrapping; never empty -/
+theorem C04_blip_payload_cases (r : BlipRec) (ct : String) (p : List Nat) (h : blipPayload r = some (ct, p)) :
+    p ≠ [] ∧ (p = r.data.drop (blipHeaderSize r.inst) ∨
+      (r.recType = blipDib ∧ wrapDibAsBmp (r.data.drop (blipHeaderSize r.inst)) = some p)) := by
+  unfold blipPayload at h
+  split at h
+  · cases h
+  · simp only at h
+    split at h
+    · cases h
+    · rename_i hlen
+      have hne : r.data.drop (blipHeaderSize r.inst) ≠ [] := by
+        intro e
+        have := congrArg List.length e
+        simp only [List.length_drop, List.length_nil] at this
+        omega
+      split at h
+      · cases h; exact ⟨hne, Or.inl rfl⟩
+      · split at h
+        · cases h; exact ⟨hne, Or.inl rfl⟩
+        · split at h
+          · cases h; exact ⟨hne, Or.inl rfl⟩
+          · split at h
+            · rename_i hd
+              cases hw : wrapDibAsBmp (r.data.drop (blipHeaderSize r.inst)) with
+              | none => rw [hw] at h; cases h
+              | some b =>
+                rw [hw] at h
+                simp only [Option.map_some, Option.some.injEq, Prod.mk.injEq] at h
+                obtain ⟨_, rfl⟩ := h
+                have := (C04_wrap_dib_length _ _ hw).1
+                refine ⟨?_, Or.inr ⟨hd, rfl⟩⟩
+                intro e; rw [e] at this; simp at this
+            · cases h
+
+private theorem blipAux_ok (recs : List BlipRec) : ∀ (seen : List (List Nat)) (n : Nat), ∀ bi ∈ blipImagesAux seen n recs,
+    n + 1 ≤ bi.index ∧ ∃ r ∈ recs, ∃ p, blipPayload r = some (bi.contentType, p) ∧ bi.image = mkImage .bytes (some p) := by
+  induction recs with
+  | nil => intro seen n bi h; simp [blipImagesAux] at h
+  | cons r rs ih =>
+    intro seen n bi h
+    unfold blipImagesAux at h
+    split at h
+    · obtain ⟨a, r', hr', hp⟩ := ih seen n bi h
+      exact ⟨a, r', List.mem_cons_of_mem _ hr', hp⟩
+    · rename_i ct p hp
+      split at h
+      · obtain ⟨a, r', hr', hp'⟩ := ih seen n bi h
+        exact ⟨a, r', List.mem_cons_of_mem _ hr', hp'⟩
+      · rcases List.mem_cons.mp h with rfl | h'
+        · exact ⟨Nat.le_refl _, r, List.mem_cons_self, p, hp, rfl⟩
+        · obtain ⟨a, r', hr', hp'⟩ := ih (p :: seen) (n + 1) bi h'
+          exact ⟨by omega, r', List.mem_cons_of_mem _ hr', hp'⟩
+
+/-- every picture the loop stores, for every record sequence: its number is ≥ 1, `get_bytes()` is at position 0
+and holds exactly `size_bytes` bytes — the payload of one of the records **as stored** (after the DIB wrapping) -/
+theorem C04_blip_images_ok (recs : List BlipRec) : ∀ bi ∈ blipImages recs,
+    1 ≤ bi.index ∧ (getBytes bi.image).1.pos = 0 ∧ (getBytes bi.image).1.content.length = bi.image.sizeBytes ∧
+    ∃ r ∈ recs, ∃ p, blipPayload r = some (bi.contentType, p) ∧ (getBytes bi.image).1.content = p := by
+  intro bi h
+  obtain ⟨hi, r, hr, p, hp, him⟩ := blipAux_ok recs [] 0 bi h
+  refine ⟨by omega, C04_bytes_at_zero _, ?_, r, hr, p, hp, ?_⟩
+  · rw [him]; exact C04_bytes_length .bytes (some p)
+  · rw [him]; rfl
+
+private theorem blipAux_indices (recs : List BlipRec) : ∀ (seen : List (List Nat)) (n : Nat),
+    (blipImagesAux seen n recs).map (·.index) = List.range' (n + 1) (blipImagesAux seen n recs).length := by
+  induction recs with
+  | nil => intro seen n; simp [blipImagesAux]
+  | cons r rs ih =>
+    intro seen n
+    unfold blipImagesAux
+    split
+    · exact ih seen n
+    · split
+      · exact ih seen n
+      · simp only [List.map_cons, List.length_cons, List.range'_succ, ih]
+
+/-- the pictures are numbered 1, 2, 3, … without gaps (skipped and duplicate records take no number) -/
+theorem C04_blip_indices_consecutive (recs : List BlipRec) :
+    (blipImages recs).map (·.index) = List.range' 1 (blipImages recs).length := blipAux_indices recs [] 0
+
+/-- a 2×2 24-bpp DIB behind a 17-byte BLIP header (the shape no fixture has) -/
+def dibWitness : BlipRec :=
+  ⟨0xF01F, 0x7A8, List.replicate 17 0x11 ++ [40, 0, 0, 0, 2, 0, 0, 0, 2, 0, 0, 0, 1, 0, 24, 0] ++ List.replicate 24 0 ++ List.replicate 16 7⟩
+
+/-- why the size must be taken from the payload AS STORED: for a DIB record the bytes in the record are 14 fewer
+than what `get_bytes()` returns (a `size_bytes` recorded before the wrapping would be wrong by 14) -/
+theorem C04_blip_raw_size_counterexample :
+    (dibWitness.data.drop (blipHeaderSize dibWitness.inst)).length = 56 ∧
+    (blipImages [dibWitness]).map (fun bi => (bi.index, bi.contentType, bi.image.sizeBytes)) = [(1, "image/bmp", 70)] := by decide
+
+example : (blipImages [⟨0xF01E, 0x6E0, List.replicate 17 0 ++ [0x89, 0x50, 0x4E, 0x47, 0x0D, 0x0A, 0x1A, 0x0A, 1]⟩,
+    ⟨0xF01E, 0x6E0, List.replicate 17 1 ++ [0x89, 0x50, 0x4E, 0x47, 0x0D, 0x0A, 0x1A, 0x0A, 1]⟩,
+    ⟨0xF01A, 0x3D4, List.replicate 17 0 ++ [1, 2, 3]⟩]).map (fun bi => (bi.index, bi.contentType, bi.image.sizeBytes)) =
+    [(1, "image/png", 9), (2, "image/x-emf", 3)] := by decide
+
 /-! ## (iv) metadata from the path -/
 
 /-- no path: nothing is set (all five fields stay `None` on a fresh metadata object) -/
@@ -280,6 +401,59 @@ example : (parsePath "a.zip!/dir/b.tar.gz".toList).name = "b.tar.gz".toList ∧
 example : (parsePath "//a//b/./c/".toList).str = "//a/b/c".toList ∧ (parsePath "///a".toList).str = "/a".toList ∧
     (parsePath "".toList).str = ".".toList ∧ (parsePath ".hidden".toList).suffix = [] ∧
     (parsePath "x.".toList).suffix = [] := by decide
+
+/-! ### (iv-b) a history of calls in one process -/
+
+/-- every call of a history is answered from the host as it is at that call and from that call's path argument:
+nothing an earlier call saw or computed is carried over -/
+theorem C04_path_history (calls : List PathCall) (i : Nat) (h : i < calls.length) :
+    (runPathCalls calls)[i]? = some (populateFromPath calls[i].host {} calls[i].path) := by
+  simp [runPathCalls, h]
+
+/-- … so the answer to a call does not depend on what was called before it -/
+theorem C04_path_history_independent (pre pre' : List PathCall) (c : PathCall) :
+    (runPathCalls (pre ++ [c])).getLast? = (runPathCalls (pre' ++ [c])).getLast? := by
+  simp [runPathCalls]
+
+/-- tie of that shape to the source: no function reachable from `populate_from_path` is decorated (memoised,
+wrapped) or writes module-level state -/
+theorem C04_path_stateless :
+    ∀ f ∈ S2T.Gen.Iface.stateSites, f.onMetadataPath = true → f.decorators = [] ∧ f.globalsWritten = [] := by decide
+
+/-- … `populate_from_path` itself is in that inventory -/
+theorem C04_path_inventory_nonempty :
+    (S2T.Gen.Iface.stateSites.any fun f => f.name == "populate_from_path" && f.onMetadataPath) = true := by decide
+
+/-- … and no memoised function of the package asks the file system or the working directory (its value is a
+function of its arguments, so remembering it cannot make a result depend on an earlier call) -/
+theorem C04_memo_host_free :
+    ∀ f ∈ S2T.Gen.Iface.stateSites, f.decorators ≠ [] → f.touchesHost = false ∧ f.onMetadataPath = false := by decide
+
+/-- … and every function of the package that writes module-level state is one of the reviewed ones (a new
+hand-written cache or remembered directory anywhere in the package breaks this), none of which consults the host -/
+theorem C04_state_writers_reviewed :
+    ∀ f ∈ S2T.Gen.Iface.stateSites, f.globalsWritten ≠ [] →
+      (f.file, f.name) ∈ reviewedStateWriters ∧ f.touchesHost = false ∧ f.onMetadataPath = false := by decide
+
+/-- model of the defect class this excludes: the folder looked up through a process-wide cache keyed by the parent string -/
+def populateCached (cache : List (Str × Str)) (host : Host) (s : Str) : FileMeta × List (Str × Str) :=
+  let p := parsePath s
+  let key := p.parent.str
+  match cache.find? (·.1 == key) with
+  | some e => ({ populateFromPath host {} (some s) with folderPath := some e.2 }, cache)
+  | none =>
+    let v := (host key).getD key
+    ({ populateFromPath host {} (some s) with folderPath := some v }, (key, v) :: cache)
+
+/-- the same relative path under two working directories: the cached variant reports the FIRST directory for the
+second call, the code as modelled reports the folder of the file it was given -/
+theorem C04_path_cached_counterexample :
+    let h1 : Host := fun s => if s = "data".toList then some "/w/first/data".toList else if s = "data/r.txt".toList then some "/w/first/data/r.txt".toList else none
+    let h2 : Host := fun s => if s = "data".toList then some "/w/second/data".toList else if s = "data/r.txt".toList then some "/w/second/data/r.txt".toList else none
+    let (_, c1) := populateCached [] h1 "data/r.txt".toList
+    (populateCached c1 h2 "data/r.txt".toList).1.folderPath = some "/w/first/data".toList ∧
+    (populateFromPath h2 {} (some "data/r.txt".toList)).folderPath = some "/w/second/data".toList ∧
+    (populateFromPath h2 {} (some "data/r.txt".toList)).filePath = some "/w/second/data/r.txt".toList := by decide
 
 /-! ## (v) well-formed Unicode -/
 
